@@ -25,7 +25,7 @@ RULE = ("five families, real temp directories on the implementation side. vhdx: 
         "plain roots, XML order shuffled, moved directories; an unresolvable ancestor at every depth — unknown ParentGUID of the opened snapshot, "
         "of its parent ... of the root, or the ancestor's Shot deleted — with all image files present: opening must fail). qcow2: backing chains (raw / qcow2, shorter / longer), internal "
         "snapshots read after the active image has been read (history), missing backing. vdi: parent chains. vmdk: delta descriptors "
-        "naming 1..4 sparse extents (cuts unrelated to grain sizes and to the parent's extents) over a parent descriptor (hint: same directory, sibling directory, Windows-style path, missing). Non-trivial = depth ≥ 2 and "
+        "naming 1..4 sparse extents (cuts unrelated to grain sizes and to the parent's extents) over a parent descriptor (hint: same directory, sibling directory, Windows-style path, missing); fixed grid of 32 delta links (text descriptor / hosted sparse extent with embedded descriptor): parentFileNameHint line absent / empty / blank with the parent present (must fail), parentCID in upper case / without leading zeros with a valid hint (overlay). Non-trivial = depth ≥ 2 and "
         "(for content families) a request that crosses an allocation-unit boundary; distinct recipe hash. Resolution layouts (c07_resolve.py): "
         "rx = VHDX parent locators (first / second key, table order, stale or unusable first key, missing keys, drive letters, case, `..` through a "
         "missing directory, cycles, three directories deep), rh = Parallels .hdd directories (relative / absolute image names, the three fall-back "
@@ -56,6 +56,11 @@ def gen_vmdk_delta(rng, tier):
 
 
 VmdkDeltaTruth = gen_vmdk.DeltaTruth
+# (embedded descriptor?, parentFileNameHint form, parentCID form): gen_vmdk.LINK_HINTS / LINK_CIDS
+VMDK_LINK_GRID = [(emb, hint, cid) for emb in (False, True) for hint, cid in
+                  [(h, "exact") for h in ("absent", "empty", "empty_bare", "blank", "blank_bare", "tab", "quote_only")] +
+                  [(h, c) for h in ("absent", "empty") for c in ("upper", "short")] +
+                  [("ok", c) for c in ("exact", "upper", "short", "short_upper", "mixed")]]
 
 
 # ------------------------------------------------------------------------------------------ generation
@@ -119,6 +124,17 @@ def generate(seed, tier):
         t = VmdkDeltaTruth(r)
         qs = [["o", o, l] for o, l in gen_vmdk.gen_queries(rng, t.size, t.points(), 8 if tier == "quick" else 14) + t.hot_queries(4)]
         cases.append({"id": f"m{i}", "fam": "vmdk", "recipe": r, "align": rng.choice([8192] * 4 + [512, 65536]), "queries": qs})
+    # vmdk, directed (own generator, fixed grid): the LINK of a delta disk to its parent as the subject — text descriptors and hosted
+    # sparse extents with an embedded descriptor; parentFileNameHint line absent / empty / blank (quoted and bare) with the parent
+    # lying next to the child: the names designate nothing, opening must fail (never the child alone); parentCID written in upper
+    # case / without its leading zeros / mixed case with a hint that names the parent (same or sibling directory): overlay
+    lrng = random.Random(f"C07vmdk-link/{seed}/{tier}")
+    for rep in range(1 if tier == "quick" else 6):
+        for k, (emb, hint, cid) in enumerate(VMDK_LINK_GRID):
+            r = gen_vmdk.gen_delta_link(lrng, tier, emb, hint, cid, where=["same", "sibling"][(k + rep) % 2] if hint == "ok" else "same")
+            t = VmdkDeltaTruth(r)
+            qs = [["o", o, l] for o, l in gen_vmdk.gen_queries(lrng, t.size, t.points(), 6)]
+            cases.append({"id": f"ml{rep}_{k}", "fam": "vmdk", "recipe": r, "align": lrng.choice([8192] * 4 + [512, 65536]), "queries": qs})
     # parent / chain resolution on directory layouts (model: lean/Hv/Resolve.lean through the `resolve.*` driver commands)
     cases += rsv.generate(random.Random(f"C07res/{seed}/{tier}"), tier)
     return cases
@@ -186,15 +202,20 @@ def build(case):
         b.info["branches"] = ["vdi"] + b.info["branches"]
         return b
     t = VmdkDeltaTruth(r)
-    missing = r["where"] == "missing"
+    link = r.get("link")
+    # a link that names nothing (no / empty / blank hint) is a parent that cannot be resolved, like a hint naming an absent file
+    missing = r["where"] == "missing" or bool(link and link["expect"] == "E")
     truth = ["E"] if missing else core.truth_ops(t.size, t.read, case["queries"])
     ids = {name: f"b{k}" for k, name in enumerate(t.base.files)}
     cids = {name: f"c{k}" for k, name in enumerate(t.child.files)}
     files = {ids[n]: im for n, im in t.base.files.items()}
     files.update({cids[n]: im for n, im in t.child.files.items()})
     nx = len(r["child"]["extents"])
-    b = Built(files, truth, {"branches": ["vmdk", r["where"], f"extents{min(nx, 3)}"] + sorted({e["rec"]["kind"] for e in r["child"]["extents"]}), "crosses": True, "depth": 2,
-                             "in_scope": True, "ids": ids, "cids": cids, "missing": missing})
+    lbr = ["link", "embedded-desc" if link["embedded"] else "text-desc", f"hint_{link['hint']}", f"pcid_{link['cid']}"] if link else []
+    # no_model: the Lean driver opens delta disks through text descriptors only (vmdk.desc.delta); a child that is one hosted sparse
+    # extent with an embedded descriptor is compared with the construction truth alone
+    b = Built(files, truth, {"branches": ["vmdk", r["where"], f"extents{min(nx, 3)}"] + sorted({e["rec"]["kind"] for e in r["child"]["extents"]}) + lbr, "crosses": True, "depth": 2,
+                             "in_scope": True, "ids": ids, "cids": cids, "missing": missing, "no_model": bool(link and link["embedded"])})
     b.t = t
     return b
 
@@ -316,9 +337,11 @@ def model_lines(case, built):
             lines.append(f"qcow2.snapwf {a} {case['view'] - 1} " + " ".join(tk))
         return lines
     t = built.t
+    if built.info.get("no_model"):
+        return ["desc.line " + hexs('RW 1 SPARSE "x"')]          # one cheap answer line (ignored): the driver is never left without output
     ids = built.info["ids"]
     base_names = "+".join(f"{hexs(n)}={ids[n]}" for n in t.base.files if n != t.base.descriptor_name)
-    layers = [f"D:{ids[t.base.descriptor_name]}:{base_names}"] if r["where"] != "missing" else []
+    layers = [f"D:{ids[t.base.descriptor_name]}:{base_names}"] if not built.info["missing"] else []
     cids = built.info["cids"]
     layers.append(f"D:{cids[t.child.descriptor_name]}:" + "+".join(f"{hexs(n)}={cids[n]}" for n in t.child.files if n != t.child.descriptor_name))
     return core.file_lines(built.files) + [f"vmdk.desc.delta {a} {len(layers)} " + " ".join(layers) + " " + toks]
@@ -338,6 +361,8 @@ def model_parse(case, built, out):
         # to the end of the last stream buffer (`ConformantTo … (roundUp size align)`, evaluated by the driver)
         wf = len(out) > 2 and out[2].startswith("ok") and "wf=1" in out[2]
         return {"answers": ans, "wf": bool(ans is not None and wf)}
+    if built.info.get("no_model"):
+        return {"answers": None, "wf": None}
     ans = core.parse_stream_answer(out[0]) if out else None
     if fam == "vhdx" and not case["recipe"].get("missing"):
         chk = out[1].split() if len(out) > 1 else []
